@@ -262,7 +262,7 @@ fn zero_csum_check(c: &ZeroCsum, st: &mut Stats) -> Check {
             let mut id = c.id;
             id[4] = (w >> 8) as u8;
             id[5] = w as u8;
-            StunReq { mtype: 1, magic: true, id, attrs: vec![] }.bytes()
+            StunReq { mtype: 1, magic: true, id, attrs: vec![], trailer: Hex(vec![]) }.bytes()
         } else {
             DnsQuery { id: w, flags: 0x0100, questions: vec![DnsQuestion { labels: vec![Hex(c.qname.clone().into_bytes())], qtype: 1, qclass: 1 }] }.bytes()
         }
